@@ -25,7 +25,7 @@ CONSTANTS Nodes,          \* e.g. {"n1","n2","n3"}
           ReqTypes,       \* wire values a node may request: subset of Types \cup {"bad"}
           RespTypes,      \* connection types a misbehaving peer may put into a forged response
           LimParent, LimUncle, LimChildren, LimNephew, LimOther,
-          MaxOps, MaxInject, MaxRoleChanges,
+          MaxOps, MaxInject, MaxRoleChanges, MaxCloses,
           OnlyDiscover,   \* TRUE: nodes send only the requests their discover loop would send
           Dials,          \* set of pairs <<a, b>>: a dialled b (b is an outgoing connection of a)
           RecordHist
@@ -255,6 +255,7 @@ Learn(x, a) ==
 
 PeerClose(a, b) ==
   /\ b \in Peers(a) /\ b \notin closed[a]
+  /\ Cardinality({p \in Nodes \X Nodes : p[2] \in closed[p[1]]}) < MaxCloses
   /\ closed' = [closed EXCEPT ![a] = @ \cup {b}]
   /\ loc' = [loc EXCEPT ![a] = Dropped(@, b)]
   /\ net' = [net EXCEPT ![<<a, b>>] = <<>>]
